@@ -253,6 +253,10 @@ type SeqOptions struct {
 	// is encoded with exactly those parameters, so that only the rule can
 	// reject it
 	BadProps map[int]bool
+	// Marker[i]: LZMA chunk i ends with the end-of-payload marker of the .lzma
+	// format behind its data (inside the chunk's compressed size): LZMA2 has no
+	// such marker, the chunk is illegal
+	Marker map[int]bool
 	// Costly[i]: LZMA chunk i consists of the most expensive legal operations -
 	// two-byte matches at far, ever-changing distances - so that its compressed
 	// size exceeds its uncompressed size by as much as the history allows (the
@@ -381,6 +385,9 @@ func Realise(r *sim.Rng, kinds []string, o SeqOptions) *ChunkSeq {
 				if len(e.Hist) == before {
 					e.Lit(byte(r.Intn(256)))
 				}
+			}
+			if o.Marker[ci] {
+				e.EOS()
 			}
 			body := e.Finish()
 			u := len(e.Hist) - before
